@@ -18,13 +18,15 @@ import (
 // pre-seeded checkpoints (C02), server-requested rollback (C08), start-up faults (C15).
 type scStart struct {
 	baseScn
-	prop     string
-	restarts int
-	rb       map[int]*rbScript // C08: per vb scripted rollback
-	fault    string            // C15: the injected start-up fault
-	faultVb  int
-	faultN   int
-	custom   *customMeta
+	prop                string
+	restarts            int
+	rb                  map[int]*rbScript   // C08: per vb scripted rollback
+	twinCand            map[int]journal.Off // C02 read-only: newer checkpoints a read-write twin may store
+	twinSaved, reopened bool
+	fault               string // C15: the injected start-up fault
+	faultVb             int
+	faultN              int
+	custom              *customMeta
 }
 
 type rbScript struct {
@@ -108,6 +110,7 @@ func (s *scStart) Configure(w *World) {
 		s.custom = &customMeta{w: w, docs: map[uint16]*models.CheckpointDocument{}}
 	}
 	c.ReadOnly = t.Draw(4, nil) == 0
+	c.RebalanceDelay = 3001 * time.Millisecond
 	c.W.Close = 1
 	c.W.Commit = 1
 	if s.prop == "C15" {
@@ -194,6 +197,12 @@ func (s *scStart) Configure(w *World) {
 			}
 			v.high = high
 			w.seedCheckpoint(vb, journal.Off{UUID: uuid, Seq: seq, Start: ss, End: se})
+			if high > seq {
+				if s.twinCand == nil {
+					s.twinCand = map[int]journal.Off{}
+				}
+				s.twinCand[vb] = journal.Off{UUID: uuid, Seq: high, Start: high, End: high}
+			}
 		case "C08":
 			high := uint64(10 + t.Draw(30, nil))
 			v.high = high
@@ -429,10 +438,46 @@ func (s *scStart) MemberActions(w *World, m *Member) []Action {
 		return nil
 	}
 	id := fmt.Sprintf("m%d", m.id)
-	return []Action{
-		{ID: "commit|" + id, W: c.W.Commit, Do: func() { m.call("Commit", func() string { m.d.Commit(); return "" }) }},
-		{ID: "close|" + id, W: c.W.Close, Do: func() { w.closeMember(m) }},
+	cw := c.W.Close
+	w.mu.Lock()
+	if s.reopened && m.phase != "open" {
+		cw = 0 // Close() inside a rebalance window is C13's subject (and a recorded finding there)
 	}
+	w.mu.Unlock()
+	acts := []Action{
+		{ID: "commit|" + id, W: c.W.Commit, Do: func() { m.call("Commit", func() string { m.d.Commit(); return "" }) }},
+		{ID: "close|" + id, W: cw, Do: func() { w.closeMember(m) }},
+	}
+	if s.prop == "C02" && c.ReadOnly && len(s.twinCand) > 0 {
+		// read-only mode exists for a twin that follows a read-write instance: that one saves newer checkpoints, and
+		// a later re-open of this member's streams (GET /rebalance) has to load them again
+		w.mu.Lock()
+		open := m.phase == "open"
+		w.mu.Unlock()
+		if !s.twinSaved {
+			acts = append(acts, Action{ID: "twinsave", W: 3, Do: func() {
+				s.twinSaved = true
+				var vbs []int
+				for vb := range s.twinCand {
+					vbs = append(vbs, vb)
+				}
+				sort.Ints(vbs)
+				for _, vb := range vbs {
+					if w.tape.Draw(2, nil) == 0 || vb == vbs[0] {
+						w.seedCheckpoint(vb, s.twinCand[vb])
+					}
+				}
+				w.probe("read-write-twin-saved")
+			}})
+		} else if !s.reopened && open {
+			acts = append(acts, Action{ID: "reopen|" + id, W: 3, Do: func() {
+				s.reopened = true
+				w.probe("read-only-session-reopened")
+				m.apiCall("GET", "/rebalance", "")
+			}})
+		}
+	}
+	return acts
 }
 
 func (s *scStart) Actions(w *World) []Action {
